@@ -64,8 +64,8 @@ CHECKS["C15"] = dict(
          "+ controller + ibft storage with full-state conformance after every step and monitors on real outputs; seeded "
          "executions generated on the real code are validated against ControllerTrace.tla.",
     design_ref="DESIGN.md section 5 C15",
-    note="One committee of 4, certificates {1,2,3}/{1,2,3,4}, one value per height; crash only between calls (single db Set "
-         "atomic); in-memory badger stands in for disk; the height-0 special case of ShouldProcessDuty is excluded explicitly; "
+    note="One committee of 4, certificates {1,2,3}/{1,2,3,4}, one value per height; a crash may fall between calls and between the two writes of "
+         "SaveInstance (each single db Set atomic); in-memory badger stands in for disk; the height-0 special case of ShouldProcessDuty is excluded explicitly; "
          "known finding history-overwritten-by-rerun-after-restart (late decided below c.Height is not stored as highest); "
          "quick-tier exhaustive runs are time-boxed (stopAfter) and report exhaustive=false when the box is hit.",
     technique="TLA+ spec + TLC exhaustive check; simulations, attack and finding traces replayed on the real code with "
@@ -87,23 +87,29 @@ CHECKS["C16"] = dict(
     note="Exhaustive only for the stated constants (<= 2 validators, bounded reorg/indices/failure budgets, no skipped "
          "ticks, non-empty active set). 'Fetched successfully before that tick' is read as storeValid: no dispatch is "
          "demanded after an invalidating event or failed fetch until the key is fetched again, so a handler that stops "
-         "fetching is outside the property. BeaconNetwork arithmetic is re-implemented by the virtual network.",
+         "fetching is outside the property; which events invalidate which key is transcribed per role from the pinned handlers. BeaconNetwork arithmetic is re-implemented by the virtual network.",
     technique="TLA+ spec + TLC exhaustive check; graph cover, simulation and attack traces replayed on the real duty "
               "handlers with monitors; TLC trace validation of recorded executions",
 )
 CHECKS["C03"] = dict(
     category="model_checking",
     text="Runner.tla models StartNewDuty (ShouldProcessDuty, new State, pre-consensus proof or decide), the pre-/post-consensus quorum "
-         "steps, Controller.ProcessMsg/UponDecided/StartNewInstance and baseConsensusMsgProcessing (didDecideCorrectly, "
-         "validateDecidedConsensusData) with a log of every SignBeaconObject. TLC exhausts all sequences of start-duty events, deciding "
-         "sequences, decided messages (stale/future/replayed, valid/other/invalid value), foreign-validator/-role messages and partial-signature "
-         "quorums over heights 1..3 for both role families and checks SigWindow. State-graph covers, attack traces (height check, "
-         "re-validation, once-only reporting, message-id check removed) and seeded single-message-grain random executions are replayed on "
-         "real runners of all five roles behind a real Validator.ProcessMessage; the monitor reads only the key-manager spy.",
+         "steps, Controller.ProcessMsg/UponDecided/StartNewInstance with the PRODUCTION 2-slot instance container (addNewInstance "
+         "eviction, future decided messages creating instances, the runner's pointer to an instance that was pushed out) and "
+         "baseConsensusMsgProcessing (prevDecided, didDecideCorrectly, validateDecidedConsensusData) with a log of every "
+         "SignBeaconObject. TLC exhausts all sequences of start-duty events, deciding sequences, decided messages "
+         "(stale/future/replayed, three signer quorums, valid/other/invalid value), foreign-validator/-role messages and "
+         "partial-signature quorums over heights 1..3 for both role families and checks SigWindow (+ OnceDetached). State-graph "
+         "covers that prefer 'two future decided messages, then replays of the duty's decided message' histories, attack traces "
+         "(height check, re-validation, once-only reporting, message-id check removed, prevDecided read from the container, the "
+         "pinned re-sign-after-eviction deviation) and seeded single-message-grain random executions are replayed on real runners "
+         "of all five roles built with controller.NewController behind a real Validator.ProcessMessage; the monitor reads only the "
+         "key-manager spy.",
     design_ref="DESIGN.md section 5 C03",
     note="QBFT deciding sequences and partial-signature quorums are macro steps in the spec (split in the random executions); heights 1..3, "
          "operator 1 of 4 (7 in part of the random runs); SignRoot signatures are not constrained; the reference ssv-spec value check is the "
-         "oracle for 'passed the validity check'.",
+         "oracle for 'passed the validity check'; the check first replays the pinned deviation's counterexample and generates covers "
+         "from the variant (PrevDec code/fixed) the tree implements; fixed finding signed-twice-evicted-undecided (commit 15afa78ec).",
     technique="TLA+ spec + TLC exhaustive check; state-graph cover, attack traces and random executions replayed on real runners with a key-manager spy",
 )
 CHECKS["C05"] = dict(
@@ -331,8 +337,11 @@ CHECKS["C10"] = dict(
          "on real controllers, and EVERY broadcast of a correct operator (incl. the aggregated decided messages of "
          "Controller.broadcastDecided) is handed to the real messageValidator of every other correct peer at a virtual "
          "time inside the round of its emission (three positions inside the round, re-based-genesis clock): class reject "
-         "is a violation, in fault-free in-order runs anything but accept is.",
-    design_ref="DESIGN.md section 5 C10",
+         "is a violation, in fault-free in-order runs anything but accept is. Two further replay classes feed the real gate: "
+         "lossy behaviours (a message may miss its round at some recipients; pruned by the spec's own reject rules, not part "
+         "of the exhaustive claim) and guided scenarios of the faithful spec (e.g. a round-change quorum with mixed "
+         "prepared rounds completed by the lower-prepared member).",
+    design_ref="DESIGN.md section 5 C10, section 10.3",
     note="Committee 4; consensus messages and aggregated decided messages (partial-signature messages of the duty runners "
          "are not part of this check); the gate is driven through ValidateSSVMessage (bare SSV message, pre-fork era); "
          "known finding: a proposal stamped with the stale round of an adopted decided certificate is rejected as "
